@@ -336,7 +336,7 @@ def run_check(prop, a, bdir, seed, t0):
     if a.only:
         jobs = [j for j in jobs if re.search(a.only, j.name)]
     backends = ("cadical", "kissat") if a.tier == "quick" else ("cadical", "kissat", "minisat")
-    timeout = 240 if a.tier == "quick" else 900
+    timeout = 900 if a.tier == "quick" else 1800   # generous: a job that needs 4 minutes under load must not turn into exit 2
     # all jobs share incdirs per unit
     by_inc = {}
     for j in jobs:
